@@ -164,7 +164,7 @@ def survivors_ok(d, old_bytes, new_bytes, ns):
     return bad
 
 
-def run(tier, seed):
+def run(tier, seed, shape_only=False):
     ns = import_library()
     root = tempfile.mkdtemp(prefix="verif_k4_")
     res = {"name": "K4", "evaluations": 0, "distinct_nontrivial": 0, "traces": 0, "model_mismatches": [],
@@ -192,6 +192,8 @@ def run(tier, seed):
                                                    "detail": "file operations happened although the content cannot be serialised"})
                 res["stats"][mode] = "no file operation"
                 res["evaluations"] += 1
+                continue
+            if mode == "inplace" and shape_only:
                 continue
             if mode == "inplace":
                 counts = count_points(mode, root)
@@ -222,6 +224,8 @@ def run(tier, seed):
                 lines = [x for x in pts if x[0] == "line"]
                 keep = set(rnd.sample(range(len(lines)), min(len(lines), 60)))
                 pts = [x for i, x in enumerate(lines) if i in keep] + [x for x in pts if x[0] != "line"]
+            if shape_only:
+                continue
             for k, i, c in pts:
                 jobs.append((mode, k, i, c, new_bytes))
             # real SIGKILL through strace, at the syscalls of the save window
